@@ -99,7 +99,14 @@ pub fn limit_set(variant: u8) -> [u32; 6] {
         0 => [1, 1, 1, 1, 1, 1],
         1 => [1, 2, 1, 2, 1, 2],
         2 => [2, 1, 2, 1, 2, 2],
-        _ => [2, 2, 2, 2, 2, 4],
+        3 => [2, 2, 2, 2, 2, 4],
+        // single-clause sets: exactly one limit is tight (1), every other one is out of reach,
+        // so that no other clause masks a wrong check of this one
+        v => {
+            let mut l = [9; 6];
+            l[(v as usize - 4) % 6] = 1;
+            l
+        }
     }
 }
 pub const BYPASSED: u8 = 2;
